@@ -482,7 +482,7 @@ func c08Classify(c *Ctx, fn *ssa.Function) string {
 				}
 			}
 		case ssa.CallInstruction:
-			if _, ok := Match(Call("latestSyncHandler).setLatestSync"), c.CallX(in)); ok {
+			if _, ok := Match(c.RoleCall("latest.set"), c.CallX(in)); ok {
 				setsLatest = true
 			}
 		}
@@ -519,7 +519,10 @@ func c08AtomicSection(c *Ctx, all map[string][]*LockAnalysis) {
 					return true
 				}
 				switch f.Name() {
-				case "GetLatestSync", "getLatestSync":
+				case "GetLatestSync":
+					reads = append(reads, call)
+				}
+				if r := c.Role("latest.get"); r != nil && r.Object() == types.Object(f) {
 					reads = append(reads, call)
 				}
 				if sf := c.Prog.FuncValue(f); sf != nil && c08Classify(c, sf) == "success" {
